@@ -20,7 +20,7 @@ RULE = ("random Hermitian models (1-3 WFs; Ham,AA,BB,CC,FF,GG,OO (+spin matrices
         "(exact two-fold degeneracy), grid <= 6^3 (<= 64 k-points) in a drawn factorisation, uniform Fermi grid "
         "(1..12 points, spacing 0.01..0.5, placed below / inside / above / spanning the band range, or starting inside a merged group), formula in "
         "{Identity, Omega, Spin, InvMass, DerOmega, VelVel, VelOmega, Morb_Hpm (non-additive)}, derivative order "
-        "0..3, degen_thresh in {-1, 1e-4, 1e-2, 0.1, 0.3} (the large ones merge bands into groups with a real spread), band selections, k-resolved variants; non-trivial = at least one "
+        "0..3, degen_thresh in {-1, 1e-4, 1e-2, 0.1, quantiles 25/50/75 % of the case's own band gaps} (the large ones merge bands into groups with a real spread), band selections, k-resolved variants; non-trivial = at least one "
         "band group changes occupation inside the (extended) Fermi grid, at least one degenerate group (double_spin "
         "pair or near-degenerate bands merged by the threshold) exists and the result is non-zero (sub cumdos: the "
         "cumulative DOS steps inside the grid); distinct = distinct generated case")
@@ -70,7 +70,7 @@ egrid_st = st.fixed_dictionaries(dict(
 def base_st(draw):
     N = draw(bgrid.grid_total_st(nmax=6, maxpoints=64))
     spin = draw(st.sampled_from(["plain", "double", "double"]))
-    thr = draw(st.sampled_from([1e-4, 1e-2, 0.1, 0.3] if spin == "double" else [-1, 1e-4, 1e-2, 0.1, 0.3]))
+    thr = draw(st.sampled_from([1e-4, 1e-2, 0.1, "q25", "q50", "q75"] if spin == "double" else [-1, 1e-4, 1e-2, 0.1, "q25", "q50", "q75"]))
     model = draw(bgrid.model_st(max_wann=3, max_npairs=4, rmax=2))
     if not model["R"]:
         model["R"] = [[1, 0, 0], [0, 1, 1]]     # dispersive bands (an on-site-only model has flat bands)
@@ -119,7 +119,7 @@ class Ref:
         self.kmesh = bgrid.mesh(self.N)
         self.E = np.array([np.repeat(self.model.bands(k), self.deg) for k in self.kmesh])
         self.nk, self.nb = self.E.shape
-        self.thr = case["thr"]
+        self.thr = self._threshold(case["thr"])
         if bgrid.threshold_tie(self.E, self.thr):
             raise Inconclusive("tie: gap within 1e-9 of degen_thresh")
         self.groups = [bgrid.groups_of(E, self.thr) for E in self.E]
@@ -128,6 +128,21 @@ class Ref:
         gap = bgrid.min_intergroup_gap(self.E, max(self.thr, 1e-12))
         self.cond = max(1.0, 1e-3 / gap) ** 4 if np.isfinite(gap) else 1.0
         self.ndegen = sum(1 for g in self.groups for a, b in g if b - a > 1)
+        self.nmerged = sum(1 for E, g in zip(self.E, self.groups) for a, b in g if E[b - 1] - E[a] > 1e-6)
+
+    def _threshold(self, spec):
+        """numbers are used as they are; 'qNN' = a threshold in the middle between two consecutive values of the
+        sorted list of all band gaps of this case (so that about NN % of the gaps merge their bands into groups with
+        a real energy spread) - never closer than 5e-7 to any gap, hence tie-free"""
+        if not isinstance(spec, str):
+            return spec
+        gaps = np.sort(np.concatenate([np.diff(E) for E in self.E]))
+        gaps = gaps[gaps > 1e-9]
+        i0 = int(int(spec[1:]) / 100 * len(gaps))
+        for i in list(range(i0, len(gaps) - 1)) + list(range(min(i0, len(gaps) - 1) - 1, -1, -1)):
+            if gaps[i + 1] - gaps[i] > 1e-6:
+                return float(0.5 * (gaps[i] + gaps[i + 1]))
+        return 1e-4
 
     def fermi_grid(self, extra, far=False):
         """returns (E0, dE, n): tie-free uniform grid; `extra` points are added on both sides for the tie test"""
@@ -151,7 +166,9 @@ class Ref:
                 E0 = cands[min(len(cands) - 1, int(u * len(cands)))]
             else:
                 mode = "inside"
-        if mode == "inside":
+        if mode == "split":
+            pass
+        elif mode == "inside":
             E0 = lo + u * max(hi - lo, 1e-3) - 0.5 * width * u
         elif mode == "below":
             E0 = lo - width - de * (3 + 5 * u)
@@ -298,8 +315,8 @@ def check_sea(case):
     allm = np.concatenate(ref.means)
     crossing = bool(np.any((allm > Ef[0]) & (allm <= Ef[-1]))) or bool(np.any(allm <= Ef[-1]) and np.any(allm > Ef[-1]))
     nonzero = np.max(np.abs(got), initial=0) > 1e3 * floor
-    return ok(crossing and nonzero and ref.ndegen > 0, fname, case["spin"], f"thr={ref.thr}", case["egrid"]["mode"],
-              "degenerate-groups" if ref.ndegen else "no-degenerate-group",
+    return ok(crossing and nonzero and ref.ndegen > 0, fname, case["spin"], f"thr={case['thr']}", case["egrid"]["mode"],
+              "degenerate-groups" if ref.ndegen else "no-degenerate-group", "merged-groups-with-spread" if ref.nmerged else None,
               "near-degenerate" if ref.cond > 1 else None, "crossing" if crossing else "no-crossing",
               f"nEf={'1' if n == 1 else '2-4' if n < 5 else '5+'}", "nonzero" if nonzero else "zero",
               "div>1&fft>1" if (np.prod(div) > 1 and np.prod(fft) > 1) else None)
@@ -365,8 +382,8 @@ def check_surface(case):
     allm = np.concatenate(ref.means)
     crossing = bool(np.any((allm > Eext[0]) & (allm <= Eext[-1])))
     nonzero = np.max(np.abs(got), initial=0) > 1e3 * floor
-    return ok(crossing and nonzero and ref.ndegen > 0, fname, f"fder={nder}", case["spin"], f"thr={ref.thr}", case["egrid"]["mode"],
-              "degenerate-groups" if ref.ndegen else "no-degenerate-group",
+    return ok(crossing and nonzero and ref.ndegen > 0, fname, f"fder={nder}", case["spin"], f"thr={case['thr']}", case["egrid"]["mode"],
+              "degenerate-groups" if ref.ndegen else "no-degenerate-group", "merged-groups-with-spread" if ref.nmerged else None,
               "select" if select is not None else "all-bands",
               "near-degenerate" if ref.cond > 1 else None, "crossing" if crossing else "no-crossing",
               "nEf=1" if n == 1 else None, "nonzero" if nonzero else "zero")
@@ -392,7 +409,7 @@ def check_cumdos(case):
     dos = np.array(res.results["dos"].data)
     count = np.array([np.mean([float(sum(b - a for (a, b), m in zip(g, mn) if m <= e))
                                for g, mn in zip(ref.groups, ref.means)]) for e in Ef])
-    _cmp("cumdos-vs-count", f"thr={ref.thr}", cum, count, 1e-12, 1e-12)
+    _cmp("cumdos-vs-count", f"thr={case['thr']}", cum, count, 1e-12, 1e-12)
     B = bgrid.band_bound(ref.model)
     for nm, c in (("cum", cum), ("cumT", cumT)):
         if np.any(np.diff(c) < -1e-10):
@@ -410,8 +427,8 @@ def check_cumdos(case):
     _cmp("dos-vs-fd-of-count", f"dE={de}", dos, (cext[2:] - cext[:-2]) / (2 * de), 1e-10, 1e-12 / de)
     below = bool(np.any(Ef < -B)) and bool(np.any(Ef > B))
     stepping = bool(np.any(np.diff(cum) > 0))
-    return ok(stepping, case["spin"], f"thr={ref.thr}", case["egrid"]["mode"], "covers-both-limits" if below else None,
-              "degenerate-groups" if ref.ndegen else "no-degenerate-group", "stepping" if stepping else "flat")
+    return ok(stepping, case["spin"], f"thr={case['thr']}", case["egrid"]["mode"], "covers-both-limits" if below else None,
+              "degenerate-groups" if ref.ndegen else "no-degenerate-group", "merged-groups-with-spread" if ref.nmerged else None, "stepping" if stepping else "flat")
 
 
 # ------------------------------------------------------------------------------------------------
